@@ -5,6 +5,7 @@ package universe
 
 import (
 	"reflect"
+	"sync/atomic"
 	"unsafe"
 
 	"github.com/mlange-42/ark/ecs"
@@ -528,16 +529,30 @@ func mk[T any, P Cd[T]](name string) Type {
 			r, _ := P(&c).Dec()
 			return r
 		},
-		NewMap:     func(w *ecs.World) MapT { return mapT[T, P]{m: ecs.NewMap[T](w)} },
+		NewMap: func(w *ecs.World) MapT {
+			if alt() {
+				return mapT[T, P]{m: (*ecs.Map[T])(nil).New(w)} // the nil-receiver constructor
+			}
+			return mapT[T, P]{m: ecs.NewMap[T](w)}
+		},
 		RegisterID: func(w *ecs.World) ecs.ID { return ecs.ComponentID[T](w) },
 		Rel:        func(target ecs.Entity) ecs.Relation { return ecs.Rel[T](target) },
 		AddRes: func(w *ecs.World, v int64) {
 			c := new(T)
 			P(c).Enc(v)
+			if alt() {
+				r := ecs.Resource[T]{}.New(w) // the generic accessor, built by the zero-value constructor
+				r.Add(c)
+				return
+			}
 			ecs.AddResource(w, c)
 		},
 		GetRes: func(w *ecs.World) (int64, bool, bool) {
 			c := ecs.GetResource[T](w)
+			r := ecs.NewResource[T](w)
+			if c2 := r.Get(); c2 != c {
+				return 0, false, c != nil // the two accessors disagree: reported as inconsistent
+			}
 			if c == nil {
 				return 0, true, false
 			}
@@ -555,6 +570,11 @@ func mk[T any, P Cd[T]](name string) Type {
 	}
 	return t
 }
+
+var altCtr atomic.Uint64
+
+// alt alternates between equivalent ways of calling the API.
+func alt() bool { return altCtr.Add(1)%2 == 0 }
 
 // Types is the universe, in a fixed canonical order.
 var Types []Type
